@@ -63,6 +63,16 @@ OverlapOK == (Rec.op = "overlap" /\ Has("val")) =>
 ProbOK == (Rec.op = "prob" /\ Has("vals")) =>
     LET S0 == TGrp(Rec.pre)  n == Len(Rec.pre.rows) \div 2 IN
     \A j \in 1..Len(Rec.bits) : DyEq(Rec.vals[j], ProbNum(S0, Rec.bits[j]), n)
+\* classifier of an open finding (torchclifford stabilizer_projection_trace): some stabilizer of the
+\* argument is, up to sign, already in the projected group -- the kernel's determined-sign path is taken
+RECURSIVE DetSome(_, _, _)
+DetSome(S0, gs, j) == IF j > Len(gs) THEN FALSE
+    ELSE IF Strip(gs[j]) \in S0 \/ Neg(Strip(gs[j])) \in S0 THEN TRUE
+    ELSE DetSome(SemMeasure(S0, gs[j], 0).S, gs, j + 1)
+KF_TorchOverlapDetermined == ~(Rec.op = "overlap" /\ Rec.pkg = "torch" /\ Has("val") /\
+    LET n == Len(Rec.other.rows) \div 2
+        gs == [j \in 1..n - Rec.other.r |-> Dec(Rec.other.rows[Rec.other.r + j])]
+    IN DetSome(TGrp(Rec.pre), gs, 1))
 \* queries leave the receiver (and the argument) unchanged -- bitwise
 QueryFrameOK == (Rec.op \in {"expect", "expect_poly", "overlap", "prob", "entropy"} /\ Has("pre1")) =>
     /\ Rec.pre1 = Rec.pre
